@@ -104,8 +104,9 @@ def admissible(r, sp):
             return v[2:], ("eq", v[2:])
         return None, ("default",)
     if k == "jsonList":
-        v = rand_text(r)
-        return (v or None), ("any",)
+        # the text of such a field is one list element, also when it happens to look like JSON itself
+        v = r.choice([rand_text(r), rand_text(r), "[1]", "[]", "[12, 5]", " [0] ", "{}", "null", "12", '"q"'])
+        return (v or None), ("json1", v)
     return None, ("any",)
 
 
@@ -185,6 +186,14 @@ def check_expect(exp, got, where):
     elif exp[0] == "none":
         if got is not None:
             return "%s: unused field stores %r" % (where, got)
+    elif exp[0] == "json1":
+        # a JSON list field holds the wire text as the single element of a JSON list
+        try:
+            val = json.loads(got)
+        except Exception:
+            return "%s: a JSON list field holds %r, not JSON" % (where, got)
+        if val != [exp[1]]:
+            return "%s: JSON list field holds %r, the wire text was %r (expected the one-element list of it)" % (where, got, exp[1])
     return None
 
 
